@@ -71,19 +71,23 @@ func VerifH_C12_early() {
 	vCover("C12.early.rst", how == 2 && done)
 }
 
-// The client's writes fail from a chosen byte on while the server stays
-// connected and silent: both requests end, the socket is closed and both
+// The client's writes fail from any byte 0..70 on (in a HEADERS frame, in the
+// DATA of the second request, or between frames) while the server stays
+// connected and silent: all three requests end, their callers can take them back, the socket is closed and both
 // loops exit without the peer having to hang up.
 //
 //verif:harness prop=C12 unwind=300 timeout=900
 func VerifH_C12_wfail() {
-	failAt := [4]int{0, 9, 30, 60}[vRange(0, 3)]
+	failAt := vRange(0, 70)
 	cl := vStartClient()
 	cl.conn.w.failAt = failAt
 	a := cl.request("GET", "/a", nil)
 	b := cl.request("POST", "/b", []byte("body"))
 	c := cl.request("GET", "/c", nil)
 	vSettle()
+	if len(cl.conn.w.out) < failAt || !cl.c.Closed() && len(cl.conn.w.out) == failAt {
+		return // everything fitted in front of the failing byte: nothing failed
+	}
 	n := 0
 	for _, k := range []*vCall{a, b, c} {
 		done, err := k.outcome()
@@ -93,10 +97,23 @@ func VerifH_C12_wfail() {
 		}
 	}
 	vAssert(n > 0, "C12.wfail.some-request-saw-the-failure")
+	// RoundTrip takes the request back from the connection before it returns
+	// to its caller: that must not wait for anything either
+	back := 0
+	for _, k := range []*vCall{a, b, c} {
+		k := k
+		go func() {
+			k.ctx.takeBack()
+			back++
+		}()
+	}
+	vSettle()
+	vAssert(back == 3, "C12.wfail.callers-get-their-requests-back")
 	vAssert(cl.c.Closed(), "C12.wfail.connection-closed")
 	vAssert(cl.conn.closed, "C12.wfail.socket-closed")
 	vAssert(vLiveTasks() == 0, "C12.wfail.loops-exit")
 	vCover("C12.wfail.mid", failAt == 30 && n > 0)
+	vCover("C12.wfail.in-body", failAt == 45 && n > 0)
 }
 
 // The server has stopped reading (the client's socket write never returns)
